@@ -2000,6 +2000,14 @@ def precompare_conversions(case, impl, model):
     return None
 
 
+def precompare_conversions_C01(case, impl, model):
+    """C01 owns units and WHETHER a conversion succeeds; the converted value is C18's"""
+    r = precompare_conversions(case, impl, model)
+    if r is not None and r[0] == "soft":
+        return ("drift", "converted value owned by C18")
+    return r
+
+
 # =========================================================================== property-conformant alternatives
 def accept_latest(case, impl, model):
     """`st latest` / `d latest`: the property only says the result is one of the candidates and no candidate is strictly newer;
